@@ -24,4 +24,8 @@ pub proof fn axiom_hasher_agrees_on_clone<T: Clone, H: Fn(&T) -> u64>(h: H, a: T
 #[verifier::external_body]
 pub fn iter_size_hint<I: Iterator>(it: &I) -> (r: (usize, Option<usize>)) { it.size_hint() }
 
+/// `<ahash::RandomState as Default>::default()` (the stand-in type is declared in contracts/prelude.rs): some builder,
+/// nothing is assumed about it
+impl Default for DefaultHashBuilder { #[verifier::external_body] fn default() -> Self { unimplemented!() } }
+
 } // verus!
